@@ -243,28 +243,4 @@ theorem file_of_header (rate : Option Rat) (F : File) (hwf : F.wf = true) (hT : 
     simp only [lastG, if_true, rstrip_styled]
     exact eoh_end n nx
 
-theorem hdrFacts_of_ok (rate : Option Rat) (hdr : List HdrRec) (h : hdrOk rate hdr = true) (H : State)
-    (hH : headerState rate hdr = .ok H) : HdrFacts hdr rate H := by
-  unfold hdrOk at h
-  rw [hH] at h
-  simp only [Bool.and_eq_true, beq_iff_eq] at h
-  obtain ⟨⟨⟨⟨h1, h2⟩, h3⟩, h4⟩, h5⟩ := h
-  refine ⟨h1, h2, ?_, ?_, ?_⟩
-  · cases hm : markerOf hdr with
-    | none => simp [hm] at h3
-    | some m =>
-      simp only [hm, beq_iff_eq] at h3
-      exact ⟨m, rfl, h3⟩
-  · intro st hst
-    have := List.all_eq_true.mp h4 st hst
-    simpa using this
-  · exact h5
-
-/-- the file-level round trip, with the header's handlers *evaluated* on the header's values (`hdrOk`) -/
-theorem file_of_hdrOk (rate : Option Rat) (F : File) (hwf : F.wf = true) (hh : hdrOk rate F.hdr = true) :
-    readData headerParser obsParser resetCache (fileLines F) true 0 { rate := rate } = expected rate F := by
-  have hwf' := hwf
-  simp only [File.wf, Bool.and_eq_true] at hwf'
-  exact file_of_header rate F hwf (typeFacts F.hdr hwf'.1.1.2) (fun H hH => hdrFacts_of_ok rate F.hdr hh H hH)
-
 end Midgard.Spec.Rinex3ObsFile
